@@ -211,7 +211,7 @@ def loop_headers(toks, lo, hi):
     return res
 
 
-def apply_fn(fs, item_text, unit_id, rewrites_log, out, where, canary=False):
+def apply_fn(fs, item_text, unit_id, rewrites_log, out, where, canary=False, lenient=None):
     """item_text: current source text of the function item (attributes included).
     Emits annotated text to `out`. Returns list of obligation ids."""
     text = item_text
@@ -228,6 +228,9 @@ def apply_fn(fs, item_text, unit_id, rewrites_log, out, where, canary=False):
     for rx, repl, why in fs.subs:
         text, k = re.subn(rx, repl, text, flags=re.S)
         if k == 0:
+            if lenient is not None:
+                lenient.append("%s: @sub /%s/ matched nothing in %s" % (unit_id, rx, fs.name))
+                continue
             raise LostAnchor("%s: @sub /%s/ matched nothing in %s" % (unit_id, rx, fs.name))
         for _ in range(k):
             rewrites_log.append({"id": "SUB", "fn": fs.name, "why": why, "regex": rx})
@@ -297,26 +300,40 @@ def apply_fn(fs, item_text, unit_id, rewrites_log, out, where, canary=False):
     if body_open is not None:
         bclose = match_close(toks, body_open)
         lh = loop_headers(toks, body_open + 1, bclose)
-        for kk, payload in fs.loops.items():
-            if kk >= len(lh):
-                raise LostAnchor("%s: %s has %d loops, contract refers to loop %d" % (unit_id, fs.name, len(lh), kk))
-            add_ins(toks[lh[kk][1]].start, "\n" + payload + "\n", "loop%d" % kk)
+        loops_ok = True
         if len(lh) != fs.nloops_expected and fs.nloops_expected is not None:
-            raise LostAnchor("%s: %s has %d loops, contract was written for %d" % (unit_id, fs.name, len(lh), fs.nloops_expected))
+            if lenient is None:
+                raise LostAnchor("%s: %s has %d loops, contract was written for %d" % (unit_id, fs.name, len(lh), fs.nloops_expected))
+            lenient.append("%s: %s has %d loops, contract was written for %d (loop contracts dropped)" % (unit_id, fs.name, len(lh), fs.nloops_expected))
+            loops_ok = False
+        for kk, payload in (fs.loops.items() if loops_ok else []):
+            if kk >= len(lh):
+                if lenient is None:
+                    raise LostAnchor("%s: %s has %d loops, contract refers to loop %d" % (unit_id, fs.name, len(lh), kk))
+                lenient.append("%s: %s loop %d missing" % (unit_id, fs.name, kk)); continue
+            add_ins(toks[lh[kk][1]].start, "\n" + payload + "\n", "loop%d" % kk)
         for ai, (mode, anchor, opts, payload) in enumerate(fs.anchors):
             at = [t.text for t in lex(anchor)]
             hits = find_token_seq(toks, body_open, bclose + 1, at)
             nth = opts.get("nth")
+            lost_msg = None
             if nth is None:
                 if len(hits) != 1:
-                    raise LostAnchor("%s: %s anchor %r occurs %d times (expected exactly 1)" % (unit_id, fs.name, anchor, len(hits)))
-                h = hits[0]
+                    lost_msg = "%s: %s anchor %r occurs %d times (expected exactly 1)" % (unit_id, fs.name, anchor, len(hits))
+                else:
+                    h = hits[0]
             else:
                 if nth >= len(hits):
-                    raise LostAnchor("%s: %s anchor %r #%d not found (%d hits)" % (unit_id, fs.name, anchor, nth, len(hits)))
-                if "of" in opts and int(opts["of"]) != len(hits):
-                    raise LostAnchor("%s: %s anchor %r occurs %d times (expected %s)" % (unit_id, fs.name, anchor, len(hits), opts["of"]))
-                h = hits[nth]
+                    lost_msg = "%s: %s anchor %r #%d not found (%d hits)" % (unit_id, fs.name, anchor, nth, len(hits))
+                elif "of" in opts and int(opts["of"]) != len(hits):
+                    lost_msg = "%s: %s anchor %r occurs %d times (expected %s)" % (unit_id, fs.name, anchor, len(hits), opts["of"])
+                else:
+                    h = hits[nth]
+            if lost_msg is not None:
+                if lenient is None:
+                    raise LostAnchor(lost_msg)
+                lenient.append(lost_msg)
+                continue
             sec = "at%d" % ai
             if mode == "before":
                 add_ins(toks[h].start, payload + "\n", sec)
@@ -372,7 +389,7 @@ def apply_fn(fs, item_text, unit_id, rewrites_log, out, where, canary=False):
     return obligations, erased
 
 
-def generate(vc_path, out_dir, canary=False):
+def generate(vc_path, out_dir, canary=False, lenient=False):
     ds = parse_vc(vc_path)
     unit_id = None
     out = Out()
@@ -397,6 +414,7 @@ def generate(vc_path, out_dir, canary=False):
             files[rel] = rustlex.SourceFile(p)
         return files[rel]
     rewrites_log = []
+    lost_hints = [] if lenient else None
     obligations = []
     functions = []
     dropped = []
@@ -583,7 +601,7 @@ def generate(vc_path, out_dir, canary=False):
                 # a trait method declaration: nothing to drop, the contract is simply declared
                 fs.attrs = []
                 fs.bodyless = False
-            apply_fn(fs, it.text, unit_id, rewrites_log, out, where)
+            apply_fn(fs, it.text, unit_id, rewrites_log, out, where, lenient=lost_hints)
             functions.append({"fn": oname, "path": where, "sha256": hashlib.sha256(it.text.encode()).hexdigest()[:16],
                               "assumed": True, "proved_in": ou})
         elif d.name == "fn":
@@ -632,7 +650,7 @@ def generate(vc_path, out_dir, canary=False):
             it = cands[0]
             line = f.src.count("\n", 0, it.start) + 1
             where = "%s:%d" % (rel, line)
-            obl, rewritten = apply_fn(fs, it.text, unit_id, rewrites_log, out, where, canary=canary)
+            obl, rewritten = apply_fn(fs, it.text, unit_id, rewrites_log, out, where, canary=canary, lenient=lost_hints)
             obligations += obl
             erasure.append(("fn " + name, rewritten if not fs.bodyless else None))
             functions.append({"fn": name, "path": where,
@@ -646,7 +664,8 @@ def generate(vc_path, out_dir, canary=False):
     out.add("fn main() {}\n")
     text, lines_map = out.render()
     return {"unit": unit_id, "text": text, "lines": lines_map, "obligations": obligations,
-            "functions": functions, "rewrites": rewrites_log, "dropped": dropped, "erasure": erasure}
+            "functions": functions, "rewrites": rewrites_log, "dropped": dropped, "erasure": erasure,
+            "lost_hints": lost_hints or []}
 
 
 def _has_vis(f, it):
